@@ -27,6 +27,7 @@ import OxiddModel.Pointer.Driver
 import OxiddModel.NnfParse.DriverRt
 import OxiddModel.NnfParse.Driver
 import OxiddModel.DimacsParse.Driver
+import OxiddModel.Zbdd.DriverRc
 
 open OxiddModel
 
@@ -69,7 +70,8 @@ def protos : List (String × Proto) := [
   ("dimacsparse", OxiddModel.DimacsParse.protoProposed),
   ("dimacsparse-before-fix", OxiddModel.DimacsParse.protoBeforeFix),
   ("dimacsparse-noskip", OxiddModel.DimacsParse.protoNoSkip),
-  ("dimacsparse-before-cofix", OxiddModel.DimacsParse.proto)
+  ("dimacsparse-before-cofix", OxiddModel.DimacsParse.proto),
+  ("zbdd-rc", OxiddModel.Zbdd.DriverRc.proto)
 ]
 
 def main (args : List String) : IO UInt32 := do
